@@ -52,7 +52,8 @@ def run(rep, index):
     m, cls = index.klass(MOD + "." + CLS)
     public = [f.name for f in index.methods(cls) if not f.name.startswith("_")]
     rep.count("public operations", len(public))
-    ev = NumEval(index)
+    from .c12 import HOOKS as _random_hooks
+    ev = NumEval(index, module_hooks=_random_hooks)  # a start class may consult the random source (an arbitrary member of the range)
 
     # ---- discover the state: run __init__ on a stub start
     def init_task():
